@@ -74,6 +74,10 @@ func runC16(c *Ctx) {
 	c.r165()
 	// xml.KeepWhitespace honoured: the white-space clauses of C06 are option clauses too
 	c.alsoUnder(map[string]string{"R06.2": "R16.6", "R06.3": "R16.7"}, nil, func() { runC06(c) })
+	// css.KeepCSS2 sends numbers to minify.Decimal: the value guarantee has to hold under the option too
+	if pk := c.P.Pkg("css"); pk != nil {
+		c.alsoUnder(map[string]string{"R04.28": "R16.8"}, nil, func() { c.r0428(pk) })
+	}
 }
 
 // R16.5: with KeepComments no comment token is consumed without being written.
@@ -652,43 +656,54 @@ func (c *Ctx) r163() {
 		rhs, ok := assignsTo(y, func(l ast.Expr) bool { return str(l) == "omitEndTag" })
 		return ok && str(rhs) == "true"
 	}, "end tag omission (omitEndTag = true)", 3)
-	check("html", "Minifier.Minify", "KeepDocumentTags", "o.KeepDocumentTags", func(pk *packages.Package, g *flow.Graph, y *flow.Node) bool {
-		if y.Kind != flow.KCond {
-			return false
-		}
-		s := str(y.Expr)
-		if s != "t.Hash == Html" && s != "t.Hash == Head" && s != "t.Hash == Body" {
-			return false
-		}
-		// only the tests in the tag-skipping condition: the condition of the if statement whose body drops the tag with
-		// an unlabelled break (possibly after a look-ahead); a test of t.Hash inside that look-ahead is not a removal test
-		for p := c.P.Parent(y.Expr); p != nil; p = c.P.Parent(p) {
-			ifs, ok := p.(*ast.IfStmt)
-			if !ok {
-				if _, isExpr := p.(ast.Expr); isExpr {
-					continue
+	tagRemovalTest := func(tags ...string) func(pk *packages.Package, g *flow.Graph, y *flow.Node) bool {
+		return func(pk *packages.Package, g *flow.Graph, y *flow.Node) bool {
+			if y.Kind != flow.KCond {
+				return false
+			}
+			s := str(y.Expr)
+			hit := false
+			for _, tag := range tags {
+				if s == "t.Hash == "+tag {
+					hit = true
 				}
+			}
+			if !hit {
 				return false
 			}
-			if y.Expr.Pos() < ifs.Cond.Pos() || y.Expr.End() > ifs.Cond.End() {
-				return false
-			}
-			drops := false
-			ast.Inspect(ifs.Body, func(q ast.Node) bool {
-				switch b := q.(type) {
-				case *ast.ForStmt, *ast.RangeStmt, *ast.SwitchStmt, *ast.TypeSwitchStmt, *ast.SelectStmt, *ast.FuncLit:
-					return false // a break in there leaves that statement, not the token switch
-				case *ast.BranchStmt:
-					if b.Tok == token.BREAK && b.Label == nil {
-						drops = true
+			// only the tests in the tag-skipping condition: the condition of the if statement whose body drops the tag with
+			// an unlabelled break (possibly after a look-ahead); a test of t.Hash inside that look-ahead is not a removal test
+			for p := c.P.Parent(y.Expr); p != nil; p = c.P.Parent(p) {
+				ifs, ok := p.(*ast.IfStmt)
+				if !ok {
+					if _, isExpr := p.(ast.Expr); isExpr {
+						continue
 					}
+					return false
 				}
-				return true
-			})
-			return drops
+				if y.Expr.Pos() < ifs.Cond.Pos() || y.Expr.End() > ifs.Cond.End() {
+					return false
+				}
+				drops := false
+				ast.Inspect(ifs.Body, func(q ast.Node) bool {
+					switch b := q.(type) {
+					case *ast.ForStmt, *ast.RangeStmt, *ast.SwitchStmt, *ast.TypeSwitchStmt, *ast.SelectStmt, *ast.FuncLit:
+						return false // a break in there leaves that statement, not the token switch
+					case *ast.BranchStmt:
+						if b.Tok == token.BREAK && b.Label == nil {
+							drops = true
+						}
+					}
+					return true
+				})
+				return drops
+			}
+			return false
 		}
-		return false
-	}, "html/head/body tag removal test", 3)
+	}
+	check("html", "Minifier.Minify", "KeepDocumentTags", "o.KeepDocumentTags", tagRemovalTest("Html", "Head", "Body"), "html/head/body tag removal test", 3)
+	// an element's end tag goes with its start tag: html, head, body and colgroup are removed as pairs
+	check("html", "Minifier.Minify", "KeepEndTags", "o.KeepEndTags", tagRemovalTest("Html", "Head", "Body", "Colgroup"), "removal of a start and end tag pair", 4)
 	check("html", "Minifier.Minify", "KeepDefaultAttrVals", "o.KeepDefaultAttrVals", func(pk *packages.Package, g *flow.Graph, y *flow.Node) bool {
 		if y.Kind != flow.KCond {
 			return false
